@@ -416,14 +416,8 @@ fn observe(ctx: &mut Ctx, cfg: &Config, m: &Outcome, script: &gen::Script) {
         }
         End::Error(e) => {
             ctx.obs(&format!("err.{}", e.kinds[0]));
-            if e.kinds[0] == "StackFull" {
-                // which capacity: judged from the model state is not available here; use the
-                // configuration and the peak
-                if let Some(c) = cfg.caps {
-                    if m.peak_stack >= c.stack {
-                        ctx.obs("storage.stackfull.values");
-                    }
-                }
+            if let Some(c) = m.full_cause {
+                ctx.obs(&format!("storage.stackfull.{c}"));
             }
         }
         End::TooMany => ctx.obs("end.toomany"),
@@ -933,10 +927,10 @@ fn operand_matrix(ctx: &mut Ctx) {
 
 /// Did the model take a backward branch / return from a call?  (coverage only)
 fn flow_observations(ctx: &mut Ctx, m: &Outcome) {
-    if m.executed.iter().any(|n| *n == "bra" || *n == "skip") && m.iterations > m.executed.iter().filter(|n| **n != "bra").count() as u64 / 2 {
-        // iterations exceed distinct straight-line length only with a loop; approximated
+    if m.backward > 0 {
+        ctx.obs("loop.backward_branch_taken");
     }
-    if m.requests.iter().any(|(r, a)| matches!(r, Req::AtLocation(_)) && matches!(a, Ans::Expr(i) if *i != 0)) && matches!(m.end, End::Complete { .. }) {
+    if m.returns > 0 {
         ctx.obs("call.returned");
     }
 }
@@ -990,29 +984,6 @@ fn random_programs(ctx: &mut Ctx) {
             key.extend_from_slice(cfg_json(&cfg).to_string().as_bytes());
             ctx.nontrivial_bytes("random", &key);
         }
-        if m.iterations > m.executed.len() as u64 {
-            // (executed is capped) nothing
-        }
-        // detect loops: a backward branch was taken iff some pc repeats; approximated by
-        // iterations exceeding the number of operations in the main program and its callees
-        let static_ops = model::decode_all(&code, enc).0.len() + script.pool.iter().map(|e| model::decode_all(e, enc).0.len()).sum::<usize>();
-        if m.iterations as usize > static_ops && !m.requests.iter().any(|(q, _)| matches!(q, Req::AtLocation(_))) {
-            ctx.obs("loop.backward_branch_taken");
-        }
-        // storage-specific observations
-        if let (Some(c), End::Error(e)) = (cfg.caps, &m.end) {
-            if e.kinds[0] == "StackFull" {
-                if m.peak_stack < c.stack {
-                    // not the value stack: calls or pieces
-                    let calls = m.requests.iter().filter(|(q, a)| matches!(q, Req::AtLocation(_)) && matches!(a, Ans::Expr(i) if *i != 0)).count();
-                    if calls > c.expr {
-                        ctx.obs("storage.stackfull.calls");
-                    } else {
-                        ctx.obs("storage.stackfull.pieces");
-                    }
-                }
-            }
-        }
         // iteration limits around I
         let iters = m.iterations;
         let mut limits: Vec<(u32, &str)> = vec![];
@@ -1034,6 +1005,12 @@ fn random_programs(ctx: &mut Ctx) {
                     }
                     if r.chance(1, 3) {
                         limits.push((0, "limit.zero"));
+                    }
+                    if r.chance(1, 8) {
+                        // the whole range 0..=I+1
+                        for l in 0..=(iters + 1).min(24) {
+                            limits.push((l as u32, "limit.sweep"));
+                        }
                     }
                 }
             }
@@ -1063,6 +1040,8 @@ fn witnesses(ctx: &mut Ctx) {
         limit: Option<u32>,
         caps: Option<Caps>,
     }
+    // every call is answered with this expression (a callee that calls again)
+    let recursive_pool = vec![vec![0x98u8, 0x05, 0x00]];
     let le = |v: Vec<u8>| v;
     let ws = vec![
         // branch exactly to the end is allowed
@@ -1094,6 +1073,21 @@ fn witnesses(ctx: &mut Ctx) {
         W { name: "five values in four slots", addr: 4, code: vec![0x31, 0x31, 0x31, 0x31, 0x31], limit: None, caps: Some(CAPS_SMALL) },
         W { name: "four values in four slots", addr: 4, code: vec![0x31, 0x31, 0x31, 0x31], limit: None, caps: Some(CAPS_SMALL) },
         W { name: "three pieces in two slots", addr: 4, code: vec![0x50, 0x93, 0x01, 0x51, 0x93, 0x01, 0x52, 0x93, 0x01], limit: None, caps: Some(CAPS_SMALL) },
+        W { name: "two pieces in two slots", addr: 4, code: vec![0x50, 0x93, 0x01, 0x51, 0x93, 0x01], limit: None, caps: Some(CAPS_SMALL) },
+        // recursion (see recursive_pool): call depth against the expression-stack capacity
+        W { name: "recursive call, one frame", addr: 4, code: vec![0x98, 0x01, 0x00], limit: None, caps: Some(CAPS_TINY) },
+        W { name: "recursive call, two frames", addr: 4, code: vec![0x98, 0x01, 0x00], limit: None, caps: Some(CAPS_SMALL) },
+        W { name: "recursive call, three frames", addr: 4, code: vec![0x98, 0x01, 0x00], limit: None, caps: Some(CAPS_MID) },
+        W { name: "recursive call, heap, limit 40", addr: 4, code: vec![0x98, 0x01, 0x00], limit: Some(40), caps: None },
+        // unsupported operations and operand errors met during evaluation
+        W { name: "GNU_uninit", addr: 4, code: vec![0x31, 0xf0], limit: None, caps: None },
+        W { name: "GNU_variable_value", addr: 4, code: vec![0xfd, 0x01, 0x00, 0x00, 0x00], limit: None, caps: None },
+        W { name: "constu that does not fit", addr: 8, code: vec![0x10, 0xff, 0xff, 0xff, 0xff, 0xff, 0xff, 0xff, 0xff, 0xff, 0x02], limit: None, caps: None },
+        W { name: "consts that does not fit", addr: 8, code: vec![0x11, 0xff, 0xff, 0xff, 0xff, 0xff, 0xff, 0xff, 0xff, 0xff, 0x01], limit: None, caps: None },
+        W { name: "regx 65536", addr: 8, code: vec![0x90, 0x80, 0x80, 0x04], limit: None, caps: None },
+        W { name: "regx 65535", addr: 8, code: vec![0x90, 0xff, 0xff, 0x03], limit: None, caps: None },
+        W { name: "countdown loop", addr: 2, code: vec![0x33, 0x31, 0x1c, 0x12, 0x28, 0xfa, 0xff], limit: None, caps: None },
+        W { name: "call returns into the caller", addr: 4, code: vec![0x98, 0x01, 0x00, 0x31, 0x22], limit: Some(5), caps: Some(CAPS_MID) },
     ];
     for (i, w) in ws.iter().enumerate() {
         if !ctx.want("witness", i as u64) {
@@ -1103,8 +1097,16 @@ fn witnesses(ctx: &mut Ctx) {
         let mut cfg = base_cfg(enc);
         cfg.max_iterations = w.limit;
         cfg.caps = w.caps;
-        let script = plain_script(i as u64);
+        let mut script = plain_script(i as u64);
+        if w.name.starts_with("recursive call") {
+            script.pool = recursive_pool.clone();
+        } else if w.name.starts_with("call returns") {
+            script.pool = vec![vec![0x35]];
+        }
         let m = one_case(ctx, "witness", &w.code, &cfg, &script);
+        if let Some(m) = &m {
+            flow_observations(ctx, m);
+        }
         if let Some(m) = m {
             if w.limit == Some(0) {
                 ctx.obs("limit.zero");
